@@ -391,24 +391,27 @@ enum Fault {
     Count,
     /// drop the target's in-flight call when pause i is reached. hold = keep a guarded continuation suspended
     /// at the cut point until one further session has been committed (only meaningful inside guarded sections)
-    Cut { i: u64, hold: bool, commit_after: bool },
+    Cut { i: u64, hold: bool, commit_after: bool, requery: bool },
     /// the same, addressed by pause label and occurrence (stable under renumbering; used by the corpus)
-    CutAt { label: String, occ: u64, hold: bool, commit_after: bool },
+    CutAt { label: String, occ: u64, hold: bool, commit_after: bool, requery: bool },
     /// the executor of this key panics during the target round
     Panic(u32),
 }
 impl Fault {
     fn is_cut(&self) -> bool { matches!(self, Fault::Cut { .. } | Fault::CutAt { .. }) }
     fn hold(&self) -> bool { matches!(self, Fault::Cut { hold: true, .. } | Fault::CutAt { hold: true, .. }) }
+    /// the cut-short round is issued again while the detached continuation is still suspended (it has to wait for it)
+    fn requery(&self) -> bool { matches!(self, Fault::Cut { requery: true, .. } | Fault::CutAt { requery: true, .. }) }
+    fn mode_word(hold: bool, requery: bool) -> &'static str { if requery { "requery" } else if hold { "hold" } else { "settle" } }
     fn commit_after(&self) -> bool { match self { Fault::Cut { commit_after, .. } | Fault::CutAt { commit_after, .. } => *commit_after, _ => true } }
     fn mode(&self) -> Mode { match self { Fault::Cut { i, .. } => Mode::Cut(*i), Fault::CutAt { label, occ, .. } => Mode::CutLabel(label.clone(), *occ), _ => Mode::Count } }
     fn render(&self) -> String {
-        match self { Fault::Count => "count".into(), Fault::Cut { i, hold, commit_after } => format!("cut {i} {} {}", if *hold { "hold" } else { "settle" }, if *commit_after { "commit" } else { "dropsession" }),
-            Fault::CutAt { label, occ, hold, commit_after } => format!("cutat {label} {occ} {} {}", if *hold { "hold" } else { "settle" }, if *commit_after { "commit" } else { "dropsession" }), Fault::Panic(k) => format!("panic {k}") }
+        match self { Fault::Count => "count".into(), Fault::Cut { i, hold, commit_after, requery } => format!("cut {i} {} {}", Fault::mode_word(*hold, *requery), if *commit_after { "commit" } else { "dropsession" }),
+            Fault::CutAt { label, occ, hold, commit_after, requery } => format!("cutat {label} {occ} {} {}", Fault::mode_word(*hold, *requery), if *commit_after { "commit" } else { "dropsession" }), Fault::Panic(k) => format!("panic {k}") }
     }
     fn parse(t: &[&str]) -> Fault {
-        match t[0] { "count" => Fault::Count, "cut" => Fault::Cut { i: t[1].parse().unwrap(), hold: t[2] == "hold", commit_after: t.get(3).map(|x| *x == "commit").unwrap_or(true) },
-            "cutat" => Fault::CutAt { label: t[1].to_string(), occ: t[2].parse().unwrap(), hold: t[3] == "hold", commit_after: t.get(4).map(|x| *x == "commit").unwrap_or(true) },
+        match t[0] { "count" => Fault::Count, "cut" => Fault::Cut { i: t[1].parse().unwrap(), hold: t[2] == "hold" || t[2] == "requery", requery: t[2] == "requery", commit_after: t.get(3).map(|x| *x == "commit").unwrap_or(true) },
+            "cutat" => Fault::CutAt { label: t[1].to_string(), occ: t[2].parse().unwrap(), hold: t[3] == "hold" || t[3] == "requery", requery: t[3] == "requery", commit_after: t.get(4).map(|x| *x == "commit").unwrap_or(true) },
             "panic" => Fault::Panic(t[1].parse().unwrap()), x => panic!("fault {x}") }
     }
 }
@@ -603,7 +606,21 @@ async fn run_fault<V: Variant>(case: &Case, target: usize, fault: &Fault, kv: &M
                     Driven::Cut => {
                         drop(te);
                         let hold = fault.hold();
-                        if hold { held = true; out.held_mode = true; for _ in 0..8 { tokio::task::yield_now().await; } } else { s.release(); settle().await; }
+                        if hold && fault.requery() {
+                            // issue the same round again right away: it must wait for the suspended continuation and be woken by it
+                            for _ in 0..4 { tokio::task::yield_now().await; }
+                            let te2 = engine.clone().tracked().await;
+                            let sh3 = sh.clone();
+                            let te3 = &te2;
+                            let fut = AssertUnwindSafe(async move { let mut vs = vec![]; for k in ks { vs.push(query_key(&sh3, te3, *k).await); } vs }).catch_unwind();
+                            match drive_soft(fut, true, &mut out.blocked_on_held, &mut drop_panic).await {
+                                Driven::Done(Ok(vs)) => { for (k, v) in ks.iter().zip(vs) { let exp = j.expected(*k); if v != exp { out.mismatches.push((idx, *k, v.to_string(), exp)); } } }
+                                Driven::Done(Err(pl)) => { fail!("C05:later-panic", "op {idx}: the round issued again while the continuation was suspended panicked: {}", payload_str(&pl).chars().take(160).collect::<String>()); }
+                                _ => { fail!("C05:hang:requery", "op {idx}: the round issued again while the detached continuation of the cut-short one was still publishing never completed (waiter not woken)"); hang = true; }
+                            }
+                            drop(te2);
+                            s.release(); settle().await;
+                        } else if hold { held = true; out.held_mode = true; for _ in 0..8 { tokio::task::yield_now().await; } } else { s.release(); settle().await; }
                     }
                 }
             }
@@ -854,7 +871,8 @@ fn child_case<V: Variant>(case: &Case, max_cuts: u64, seed: u64, only: Option<(u
     let mut one = |t: usize, f: &Fault, expect_label: Option<&str>, skipping: &mut bool| {
         let tag = format!("{} {}", t, f.render());
         if *skipping { if resume_after.as_deref() == Some(tag.as_str()) { *skipping = false; } return; }
-        emit(format!("P {tag}\t{}", expect_label.unwrap_or("-")));
+        let plabel: String = match (expect_label, f) { (Some(l), _) => l.to_string(), (None, Fault::CutAt { label, .. }) => label.clone(), (None, Fault::Panic(k)) => format!("panic@{k}"), _ => "-".into() };
+        emit(format!("P {tag}\t{plabel}"));
         let o = run_blocking::<V>(case, t, f, true);
         for (sig, d) in &o.fails { emit(format!("F {}\t{}\t{tag}", esc(sig), esc(d))); }
         for m in &o.mismatches {
@@ -885,14 +903,17 @@ fn child_case<V: Variant>(case: &Case, max_cuts: u64, seed: u64, only: Option<(u
         for i in cuts {
             let label = cnt.pauses[i as usize - 1].clone();
             let commit_after = rng.chance(1, 2);
-            one(t, &Fault::Cut { i, hold: false, commit_after }, Some(&label), &mut skipping);
+            one(t, &Fault::Cut { i, hold: false, commit_after, requery: false }, Some(&label), &mut skipping);
             // the adversarial twin: a guarded continuation stays suspended (it is a spawned task that has not been
             // scheduled yet) while the caller goes on: across the next committed session (round target), or across
             // the commit of the same session (session-call target)
             if is_guarded_label(&label) {
                 match &case.ops[t] {
-                    Op::Round(_) if next_is_session => one(t, &Fault::Cut { i, hold: true, commit_after: true }, Some(&label), &mut skipping),
-                    Op::Session(_) if !label.starts_with("in.commit") => one(t, &Fault::Cut { i, hold: true, commit_after: true }, Some(&label), &mut skipping),
+                    Op::Round(_) => {
+                        if next_is_session { one(t, &Fault::Cut { i, hold: true, commit_after: true, requery: false }, Some(&label), &mut skipping); }
+                        one(t, &Fault::Cut { i, hold: true, commit_after: true, requery: true }, Some(&label), &mut skipping);
+                    }
+                    Op::Session(_) if !label.starts_with("in.commit") => one(t, &Fault::Cut { i, hold: true, commit_after: true, requery: false }, Some(&label), &mut skipping),
                     _ => {}
                 }
             }
@@ -1033,7 +1054,7 @@ fn parent(a: Args) {
                     "R" => {
                         evals += 1;
                         let f: Vec<&str> = body.split('\t').collect();
-                        let kind = if f[0].contains("panic") { "panic" } else if f[0].contains("hold") { "cut-hold" } else { "cut" };
+                        let kind = if f[0].contains("panic") { "panic" } else if f[0].contains("requery") { "cut-requery" } else if f[0].contains("hold") { "cut-hold" } else { "cut" };
                         *dist.entry(format!("{v_use}:runs_{kind}")).or_default() += 1;
                         let lab = f[1].split('@').next().unwrap().to_string();
                         *label_hits.entry(lab.clone()).or_default() += 1;
